@@ -85,3 +85,29 @@ claim("C14", "DESIGN.md 5/C14", "Lean 4 soundness proof of the depth-first cycle
       "Theorems in MPilot.C14: cycle_rejected_before_execution (a detected cycle makes run return RecursiveModelStructure with log and memo untouched), visit_sound / no_cycle_ranked "
       "(if the check reports no cycle the reference graph has a rank function - so a model with any reference cycle, self-reference included, is never accepted, and by C01 evaluation "
       "then terminates within fuel = number of commands). Completeness (an acyclic model is never rejected) is decided by the correspondence and oracle on enumerated graphs, not yet a theorem: partial.", PB)
+
+XB = ("Trusted: Lean 4.33 kernel, axioms propext/Classical.choice/Quot.sound only (audited each run); the hand-written lexer+grammar model (a transcription of the algorithm "
+      "validated against PLY on >450 000 generated texts, and re-compared on every run); PLY 3.11 and Python's re/unicode_escape are modelled, not verified; Python's \\d is "
+      "modelled as ASCII digits; float texts are exact decimals (rounded to doubles only for comparison); the sign of zero and float texts in exponent range inside unquoted "
+      "strings are outside the model (counted). ")
+claim("C10", "DESIGN.md 5/C10", "differential correspondence of the real parser with the Lean lexer+grammar model + render/parse round-trip oracle (Lean round-trip theorem: see level text)",
+      "The executable Lean model of lexer and grammar (Model/Lexer, Model/Grammar) is compared with Parser().parse on every run over renderings of random abstract programs "
+      "under random layouts, their single-character mutations and token soups (whole tree with line numbers, or error class); the oracle checks that every rendering parses to "
+      "exactly the abstract program written, for every layout. Theorems proved so far are about the serializer side (C15) and line counting (C11); the general parse∘render = id "
+      "theorem over all layouts is NOT yet proved: this check is partial as proof and decisive as translation validation. Known finding F10 (unquoted multi-token strings) is re-run and listed.",
+      XB, category="translation_validation")
+claim("C11", "DESIGN.md 5/C11", "Lean theorems on line counting + differential correspondence incl. every line number + by-construction line oracles",
+      "In the model a parse is a function of the text alone (history independence is definitional; the real Parser is compared after 0-3 earlier parses and earlier loads in the process). "
+      "Theorems in MPilot.C11 state what the line of a token is (1 + line breaks before it, CRLF once, line breaks inside quoted strings counted). Load-time and pre-pass errors carry the line of "
+      "the offending command/argument by the definitions proved in C12 (addCommand_errors, prepassCmd_first_error). Every fault kind is injected at a known line; cycles and run-time errors of real bodies are checked too.",
+      XB)
+claim("C15", "DESIGN.md 5/C15", "Lean theorems on the serializer's escaping + character-exact correspondence of to_string() + load-back oracle",
+      "Model/Serialize is compared character by character with Program.to_string() on every run. Theorems in MPilot.C15 show that the quoting used by the serializer is inverted by the lexer's string "
+      "decoding (quote_roundtrip) so that every string value - quotes, backslashes before any character, control and non-ASCII characters - reads back exactly. The full statement "
+      "(load (to_string p) = p for whole programs) is decided on the implementation by the round-trip oracle over programs built from source and through add_command: partial as proof.",
+      XB + "Python's repr(float) (shortest digits that read back) is assumed, floats travel as the exact decimal of their repr.")
+claim("C16", "DESIGN.md 5/C16", "Lean theorems over tables regenerated from the source (decide) + conversion-rule theorems + whole-pipeline correspondence + hand-mapped equivalence oracle",
+      "Generated/Eems2Table.lean and Generated/Decls.lean are rewritten from mpilot.utils.EEMS_COMMANDS and the command registry on every run; table_total_except_known re-proves by kernel "
+      "evaluation that every mapped name exists in both library sets (the two ScoreRange rows are the listed known finding, proved missing by scorerange_targets_missing). convertNode_spec, "
+      "result_name_*, no_result_name_rejected, trigger, convert_mpilot_style state the translation rule. The model's whole pipeline (parse, convert, load) is compared with from_source on random EEMS 2.0 "
+      "and mixed files; each file is also compared with the MPilot file written by hand from the mapping rule (structure and results with the real bodies).", XB)
